@@ -144,6 +144,11 @@ class _Tag(float):
 
     __repr__ = __str__
 
+    def __format__(self, spec: str) -> str:
+        if spec == '':
+            return self.__str__()
+        raise TypeError('formatting a symbolic parameter with %r' % spec)
+
 
 class _FloatMeta(type):
     def __instancecheck__(cls, obj: Any) -> bool:      # isinstance(v, float) in the visitor
@@ -157,6 +162,8 @@ class _keep_sym(metaclass=_FloatMeta):
     def __new__(cls, x: Any = 0.0) -> Any:
         if isinstance(x, Sym):
             return _Tag(x)
+        if isinstance(x, _Tag):
+            return x
         return float(x)
 
 
